@@ -275,17 +275,19 @@ func (s *Server) ocppMessageHandler(wsChannel ws.Channel, data []byte) error {
 		case CALL_RESULT:
 			callResult := message.(*CallResult)
 			log.Debugf("handling incoming CALL RESULT [%s] from %s", callResult.UniqueId, wsChannel.ID())
-			s.dispatcher.CompleteRequest(wsChannel.ID(), callResult.GetUniqueId())
+			// Deliver the response before the next request is released: a conclusion of the next request
+			// (e.g. a failed write) must not overtake this one on its way to the callbacks, which are matched by order.
 			if s.responseHandler != nil {
 				s.responseHandler(wsChannel, callResult.Payload, callResult.UniqueId)
 			}
+			s.dispatcher.CompleteRequest(wsChannel.ID(), callResult.GetUniqueId())
 		case CALL_ERROR:
 			callError := message.(*CallError)
 			log.Debugf("handling incoming CALL RESULT [%s] from %s", callError.UniqueId, wsChannel.ID())
-			s.dispatcher.CompleteRequest(wsChannel.ID(), callError.GetUniqueId())
 			if s.errorHandler != nil {
 				s.errorHandler(wsChannel, ocpp.NewError(callError.ErrorCode, callError.ErrorDescription, callError.UniqueId), callError.ErrorDetails)
 			}
+			s.dispatcher.CompleteRequest(wsChannel.ID(), callError.GetUniqueId())
 		}
 	}
 	return nil
